@@ -826,7 +826,7 @@ func (e *Engine) MessageReceived(ctx context.Context, p peer.ID, m bsmsg.BitSwap
 
 		// Check if this is a want-block or a have-block that can be converted
 		// to a want-block.
-		isWantBlock := blockSize != 0 && e.sendAsBlock(entry.WantType, blockSize)
+		isWantBlock := e.sendAsBlock(entry.WantType, blockSize)
 
 		log.Debugw("Bitswap engine: block found", "local", e.self, "from", p, "cid", c, "isWantBlock", isWantBlock)
 
@@ -1128,7 +1128,7 @@ func (e *Engine) PeerDisconnected(p peer.ID) {
 // If the want is a want-have, and it's below a certain size, send the full
 // block (instead of sending a HAVE)
 func (e *Engine) sendAsBlock(wantType pb.Message_Wantlist_WantType, blockSize int) bool {
-	return wantType == pb.Message_Wantlist_Block || blockSize <= e.wantHaveReplaceSize
+	return wantType == pb.Message_Wantlist_Block || (e.wantHaveReplaceSize != 0 && blockSize <= e.wantHaveReplaceSize)
 }
 
 func (e *Engine) signalNewWork() {
